@@ -12,6 +12,8 @@ Num(n) == [k |-> "num", n |-> n]
 CritSrcs == {"T1", "T2", "T5", "A3", "S4", "T1b", "T1f", "A1", "Q6", "C7", "D1", "D2", "U8"}
 Crits == {Cmp(Fld(x, "a"), Fld(y, "b")) : x, y \in CritSrcs}
          \cup {Cmp([k |-> "call", f |-> "UPPER", args |-> <<Fld(x, "a")>>], Fld(y, "b")) : x, y \in {"T1", "T2", "A3", "S4", "T1b", "A1", "Q6", "C7", "U8"}}
+         \* a column written WITHOUT a table (it names no source, so it can name no unavailable one)
+         \cup {Cmp(Fld("", "a"), Fld(y, "b")) : y \in {"T1", "T2", "T5", "A3"}} \cup {Cmp(Fld("", "a"), Num("1")), Cmp(Fld("T2", "a"), Fld("", "b"))}
          \* subqueries without an alias: the joined one, and a stranger that is no source of the statement
          \cup {Cmp(Fld(x, "a"), Fld(y, "b")) : x, y \in {"T1", "Q9", "Q10"}}
          \cup {[k |-> "bin", op |-> "AND", l |-> Cmp(Fld(x, "a"), Num("1")), r |-> Cmp(Fld(y, "b"), Num("2"))] : x, y \in {"T1", "T2", "A3", "T1f", "C7"}}
@@ -27,6 +29,8 @@ Withs == {<<>>, <<[m |-> "with_", name |-> "c7"]>>}
 OcCalls == { [m |-> "on_conflict", names |-> <<"a">>], [m |-> "on_conflict", names |-> <<>>], [m |-> "do_nothing"],
              [m |-> "do_update", col |-> "b", val |-> Num("1")], [m |-> "where", crit |-> Cmp(Fld("T1", "a"), Num("1"))] }
 OcBase == << [m |-> "into", src |-> "T1"], [m |-> "insert", row |-> <<Num("1"), Num("2")>>] >>
+\* the same handlers on an INSERT .. SELECT
+OcBaseSel == << [m |-> "into", src |-> "T1"], [m |-> "from_", src |-> "T2"], [m |-> "select", terms |-> <<Fld("T2", "a"), Fld("T2", "b")>>] >>
 
 
 ShotCalls == { [m |-> "into", src |-> "T1"], [m |-> "into", src |-> "T2"], [m |-> "update", src |-> "T1"], [m |-> "delete"],
@@ -99,7 +103,7 @@ MiscExpect(p) ==
 VARIABLES prog, stage
 vars == <<prog, stage>>
 Init == /\ stage = 0
-        /\ prog = IF Fam = "oc" THEN OcBase ELSE <<>>
+        /\ prog \in (IF Fam = "oc" THEN {OcBase, OcBaseSel} ELSE {<<>>})
 JoinNext == \/ stage = 0 /\ \E f \in Bases : prog' = <<[m |-> "from_", src |-> f]>> /\ stage' = 1
             \/ stage = 1 /\ \E w \in Withs : prog' = prog \o w /\ stage' = 2
             \/ stage = 2 /\ \E p \in Prior(prog[1].src) : prog' = prog \o p /\ stage' = 3
@@ -112,6 +116,7 @@ Emit == ~Final \/ (IF Fam = "misc" THEN PrintT("P " \o ToJson([prog |-> prog, ex
                    ELSE PrintT("P " \o ToJson([calls |-> prog])))
 \* GuardsExact on the design: an independent formulation of join availability agrees with Raises
 IndepAvail(b, c) == \A f \in FieldsOf(c.crit) :
+                       \/ f[1] = ""          \* a column written without a table names no source
                        \/ f[1] \in {b.from[i] : i \in DOMAIN b.from} \cup {b.joins[i].item : i \in DOMAIN b.joins} \cup {c.item}
                        \/ \E y \in {b.from[i] : i \in DOMAIN b.from} \cup {b.joins[i].item : i \in DOMAIN b.joins} \cup {c.item} :
                              SrcTab(f[1]).kind = "table" /\ SrcTab(y).kind = "table" /\ SrcTab(f[1]).name = SrcTab(y).name
